@@ -67,3 +67,8 @@ reg('C13', 'model_checking', 'H (history explorer with replay + reference model)
     'All ownership histories over 3 owners x 3 functions x 32 operations (incl. destroy/re-create of the sandbox) are explored breadth-first to depth 4/5 with deduplication on model + implementation state, from seeds that put the backend table at 0, n-2, n-1 and n registrations; after every step the owners\' view, the entry points, the backend table, real guest calls through every entry point and registration probes are compared with the reference set model, on mbox, noop and (thorough) dylib.',
     'Depth-bounded; one sandbox object per history; private tables are read through -fno-access-control; a violated state is not expanded further.',
     'DESIGN.md section 3, C13')
+
+reg('C14', 'model_checking', 'H (history explorer with replay + reference state machine)', 'BFS over lifecycle histories replayed on the real objects, lock-step reference state machine',
+    'All lifecycle histories over three sandbox objects and 21 operations (create ok with two libraries / create fail / destroy / register / end owner / invoke by name) are explored breadth-first to depth 6/8 with deduplication; in every state the live list, the finder, allocation, free, app pointers, example-based data- and function-pointer translation and registration probes are compared with a reference state machine.',
+    'mbox model backend (bool create, by-name lookup, registry membership); depth-bounded; objects whose create failed are unconstrained; private list/caches are read through -fno-access-control.',
+    'DESIGN.md section 3, C14')
